@@ -24,8 +24,8 @@ def descriptor(rng: random.Random) -> dict[str, Any]:
     return {"path": "/".join(["pkg"] * rng.randrange(0, 3) + [f"t{rng.randrange(4)}.py" if rng.random() < 0.85 else "__init__.py"]),
             "classes": [f"C{rng.randrange(3)}" for _ in range(depth)],
             "func": f"test_{rng.randrange(5)}" if rng.random() < 0.9 else "pkg.mod.func",
-            "param": None if rng.random() < 0.5 else word(rng, 0.35),
-            "group": None if rng.random() < 0.5 else word(rng, 0.12)}
+            "param": None if rng.random() < 0.5 else (rng.choice(["1", "a-b", "u@example.com", "x::y", "q]w", "[z"]) if rng.random() < 0.6 else word(rng, 0.35)),
+            "group": None if rng.random() < 0.5 else (rng.choice(["g1", "g2", "db"]) if rng.random() < 0.8 else word(rng, 0.5))}
 
 
 def render(d: dict[str, Any], with_group: bool) -> str:
